@@ -8,12 +8,19 @@ def _mut(run):
 
 
 def run():
-    chk = core_check("C17", quick_keep=12, thorough_keep=4, annotate=_mut,
-                     run_filter=lambda r: "none" not in r["ops"] and bool(r["exp"]["F"]))
+    chk = core_check("C17", quick_keep=12, thorough_keep=4, annotate=_mut, overrides={"HostileOK": True},
+                     # (sites that are evaluated but never operated are left out: for container values the tool reports
+                     #  no `update` for them, see DESIGN section 6 - the carriers make every value a container)
+                     run_filter=lambda r: "none" not in r["ops"] and bool(r["exp"]["F"])
+                     and not any(s["op"] in ("raise", "chg") for t in r["prog"] for s in t),
+                     prop_map=lambda m: ["C17"] if m["clause"] in ("newsrc", "pending", "res", "res-reeval", "failed") else m["props"])
     if isinstance(chk, int):
         return chk
     chk.assumptions += ["the compared values live in ONE mutable object per test (list / dict / nested list) that is "
-                        "rewritten in place before every comparison and mutated again right after it"]
+                        "rewritten in place before every comparison and mutated again right after it (list, dict, nested list, a "
+                        "tuple holding a mutable list)",
+                        "values whose deep copy is unequal (identity comparison) are compared with `==` and `in`: the usage "
+                        "error must be raised and nothing recorded"]
     return chk.finish(
         rule="the per-site model stores values, so a later mutation of the compared object cannot alter what is "
              "recorded (heap-free by construction); every emitted run with at least one approved category is executed "
